@@ -116,3 +116,11 @@ fn test_root() {
     assert_eq!(dsu.root(3), common);
     assert_eq!(dsu.root(4), 4);
 }
+
+#[cfg(feature = "verif")]
+impl DisjointSetUnion {
+    /// verification hook: copy of the internal state
+    pub(crate) fn verif_state(&self) -> (Vec<usize>, Vec<usize>) {
+        (self.parents.clone(), self.ranks.clone())
+    }
+}
